@@ -54,6 +54,45 @@ var urlAlphaExtra = []spelling{
 	{"http://xn--bcher-kva.example/v", "idn"},
 }
 
+// sweepQueries: unusually encoded and multi-parameter query strings; each is tried as an absolute URL
+// and as a path-absolute reference (the two take different roads through NormalizeURL). No equivalence
+// between spellings is claimed here: every spelling is only compared with itself.
+var sweepQueries = []string{"f=a|b&d=1", "s={w}x{h}&v=3", "k=^1", "p=a\\b", "t=`x`", "a=[1]&b=]", "q=a b", "q=a+b", "q=a%20b", "q=a%7Cb", "u=ü", "u=%C3%BC", "k=", "k", "a=1&&b=2",
+	"a=1;b=2", "x='1'", "a=1&a=2&a=1", "r=<b>", "e=%", "e=%zz", "h=a%23b", "amp=a%26b&c=1", "sl=/a/b?c", "z=" + strings.Repeat("9", 300)}
+
+// sweep: for every spelling, on a fresh namespace: first sight as an asset -> fetched; the same text
+// again as an asset of another page -> skipped; then as a redirect target -> fetched once more
+// (promotion), then again -> skipped. Judged by the same reference model as the histories.
+func sweep(store string, seedsChecked bool) localResult {
+	var res localResult
+	saved := urlAlpha
+	defer func() { urlAlpha = saved }()
+	for qi, q := range sweepQueries {
+		for fi, text := range []string{"http://s.example/x?" + q, "/x?" + q} {
+			urlAlpha = []spelling{{text, "self"}}
+			ns := fmt.Sprintf("w%s%d-%d", store[:1], qi, fi)
+			ref := refModel{}
+			var h []callSpec
+			for _, pos := range []string{"asset", "asset", "redirect", "redirect"} {
+				c := callSpec{[]nodeSpec{{pos, 0}}}
+				h = append(h, c)
+				want, _ := ref.check(c, seedsChecked)
+				got, sts := runCall(c, ns)
+				res.Checks++
+				if want[0] != got[0] {
+					form := []string{"absolute", "path-absolute-reference"}[fi]
+					res.Failures = append(res.Failures, seqFailure{Sig: fmt.Sprintf("%s:%s:%s:unusual-query:%s", store, map[bool]string{true: "refetched-although-seen", false: "skipped-although-not-seen"}[got[0]], pos, form),
+						Store: store, History: append([]callSpec{}, h...), Text: text,
+						Detail: fmt.Sprintf("call %d (%s %q): reference says built=%v, Zeno: built=%v (status %s)", len(h), pos, text, want[0], got[0], sts[0])})
+					break
+				}
+			}
+			res.Histories++
+		}
+	}
+	return res
+}
+
 // node of a call: position + spelling index
 type nodeSpec struct {
 	Pos string `json:"pos"` // seed | redirect | asset
@@ -93,6 +132,7 @@ type seqFailure struct {
 	Store   string     `json:"store"`
 	History []callSpec `json:"history"`
 	Detail  string     `json:"detail"`
+	Text    string     `json:"text,omitempty"` // sweep failures: the one spelling the history is about
 }
 
 var seqCounter int
@@ -214,7 +254,12 @@ func runLocal(depth, shard, of int) localResult {
 		hkit.EngineError("%v", err)
 	}
 	defer seencheck.Close()
-	return enumerate("local", depth, shard, of, true)
+	res := enumerate("local", depth, shard, of, true)
+	if shard == 0 {
+		sw := sweep("local", true)
+		res.Histories, res.Checks, res.Failures = res.Histories+sw.Histories, res.Checks+sw.Checks, append(res.Failures, sw.Failures...)
+	}
+	return res
 }
 
 func enumerate(store string, depth, shard, of int, seedsChecked bool) localResult {
@@ -344,6 +389,11 @@ func replayHistory(f *seqFailure) (string, bool) {
 		fake.reversed = f.Store == "hq-reversed-answer"
 		fake.fail = strings.Contains(f.Sig, "hq-failed")
 	}
+	if f.Text != "" {
+		saved := urlAlpha
+		urlAlpha = []spelling{{f.Text, "self"}}
+		defer func() { urlAlpha = saved }()
+	}
 	ref := refModel{}
 	for i, c := range f.History {
 		want, _ := ref.check(c, seedsChecked)
@@ -372,6 +422,11 @@ func runHQ(depth, shard, of int) localResult {
 	fake.reversed, fake.seen = true, map[string]string{}
 	rev := enumerate("hq-reversed-answer", depth, shard, of, false)
 	fake.reversed = false
+	if shard == 0 {
+		fake.seen = map[string]string{}
+		sw := sweep("hq", false)
+		res.Histories, res.Checks, res.Failures = res.Histories+sw.Histories, res.Checks+sw.Checks, append(res.Failures, sw.Failures...)
+	}
 	res.Histories += rev.Histories
 	res.Checks += rev.Checks
 	res.Skipped += rev.Skipped
